@@ -16,3 +16,55 @@ package transaction
 //@   loop 1 invariant frame: txn.commitWaitUntilTSO == old(txn.commitWaitUntilTSO)
 //@   ensures wait: result1 == nil ==> result0 > old(txn.commitWaitUntilTSO)
 //@   ensures issued: result1 == nil ==> issued(result0)
+
+// ---- C07: batch get reads the transaction's own writes over the snapshot ---------------------------------------------
+// (gHas/gVal/inKeys and the assumed contract of kv.BatchGetter.BatchGet are in kv/zz_contracts_verif.go.)
+//@ func (BatchBufferGetter) BatchGet
+//@   trusted
+//@   bytes: key
+//@   modifies nothing
+//@   ensures result1 == nil ==> result0 != nil && fresh(result0)
+//@   ensures result1 == nil ==> forall k []byte :: inDom(result0, string(k)) <==> (inKeys(keys, k) && gHas(recv, k))
+//@   ensures result1 == nil ==> forall k []byte :: inDom(result0, string(k)) ==> result0[string(k)].Value == gVal(recv, k)
+
+// The result holds, for every requested key: the buffered value if the buffer has a live write for it; nothing if the
+// buffer has a deletion for it (whatever the snapshot holds); otherwise what the snapshot has. Nothing else is in it.
+//@ func (*BufferBatchGetter) BatchGet
+//@   prop C07
+//@   bytes: key
+//@   ensures live: result1 == nil ==> forall k []byte :: inKeys(keys, k) && gHas(b.buffer, k) && gVal(b.buffer, k) != "" ==> inDom(result0, string(k)) && result0[string(k)].Value == gVal(b.buffer, k)
+//@   ensures deleted: result1 == nil ==> forall k []byte :: inKeys(keys, k) && gHas(b.buffer, k) && gVal(b.buffer, k) == "" ==> !inDom(result0, string(k))
+//@   ensures through: result1 == nil ==> forall k []byte :: inKeys(keys, k) && !gHas(b.buffer, k) ==> (inDom(result0, string(k)) <==> gHas(b.snapshot, k)) && (inDom(result0, string(k)) ==> result0[string(k)].Value == gVal(b.snapshot, k))
+//@   ensures only: result1 == nil ==> forall k []byte :: inDom(result0, string(k)) ==> inKeys(keys, k)
+//@   loop 1 invariant shrunk: forall j int :: 0 <= j && j < len(shrinkKeys) ==> !gHas(b.buffer, shrinkKeys[j]) && inKeys(keys, shrinkKeys[j])
+//@   loop 1 invariant missing: forall i int :: 0 <= i && i <= rangeindex ==> gHas(b.buffer, keys[i]) || inKeys(shrinkKeys, keys[i])
+//@   loop 1 invariant idx: -1 <= rangeindex && rangeindex < len(keys) && bufferValues != nil
+//@   loop 2 invariant kept: forall k []byte :: inDom(bufferValues, string(k)) <==> (inKeys(keys, k) && gHas(b.buffer, k) && !(gVal(b.buffer, k) == "" && seen(string(k))))
+//@   loop 2 invariant vals: forall k []byte :: inDom(bufferValues, string(k)) ==> bufferValues[string(k)].Value == gVal(b.buffer, k)
+//@   loop 3 invariant merged: forall k []byte :: inDom(bufferValues, string(k)) <==> ((inKeys(keys, k) && gHas(b.buffer, k) && gVal(b.buffer, k) != "") || (seen(string(k)) && inDom(storageValues, string(k))))
+//@   loop 3 invariant vals: forall k []byte :: inDom(bufferValues, string(k)) ==> bufferValues[string(k)].Value == ite(gHas(b.buffer, k), gVal(b.buffer, k), gVal(b.snapshot, k))
+
+//@ func (BatchSnapshotBufferGetter) BatchGet
+//@   trusted
+//@   bytes: key
+//@   modifies nothing
+//@   ensures result1 == nil ==> result0 != nil && fresh(result0)
+//@   ensures result1 == nil ==> forall k []byte :: inDom(result0, string(k)) <==> (inKeys(keys, k) && gHas(recv, k))
+//@   ensures result1 == nil ==> forall k []byte :: inDom(result0, string(k)) ==> result0[string(k)].Value == gVal(recv, k)
+
+// The twin for snapshot-buffer readers: same contract. The result holds, for every requested key: the buffered value if the buffer has a live write for it; nothing if the
+// buffer has a deletion for it (whatever the snapshot holds); otherwise what the snapshot has. Nothing else is in it.
+//@ func (*BufferSnapshotBatchGetter) BatchGet
+//@   prop C07
+//@   bytes: key
+//@   ensures live: result1 == nil ==> forall k []byte :: inKeys(keys, k) && gHas(b.buffer, k) && gVal(b.buffer, k) != "" ==> inDom(result0, string(k)) && result0[string(k)].Value == gVal(b.buffer, k)
+//@   ensures deleted: result1 == nil ==> forall k []byte :: inKeys(keys, k) && gHas(b.buffer, k) && gVal(b.buffer, k) == "" ==> !inDom(result0, string(k))
+//@   ensures through: result1 == nil ==> forall k []byte :: inKeys(keys, k) && !gHas(b.buffer, k) ==> (inDom(result0, string(k)) <==> gHas(b.snapshot, k)) && (inDom(result0, string(k)) ==> result0[string(k)].Value == gVal(b.snapshot, k))
+//@   ensures only: result1 == nil ==> forall k []byte :: inDom(result0, string(k)) ==> inKeys(keys, k)
+//@   loop 1 invariant shrunk: forall j int :: 0 <= j && j < len(shrinkKeys) ==> !gHas(b.buffer, shrinkKeys[j]) && inKeys(keys, shrinkKeys[j])
+//@   loop 1 invariant missing: forall i int :: 0 <= i && i <= rangeindex ==> gHas(b.buffer, keys[i]) || inKeys(shrinkKeys, keys[i])
+//@   loop 1 invariant idx: -1 <= rangeindex && rangeindex < len(keys) && bufferValues != nil
+//@   loop 2 invariant kept: forall k []byte :: inDom(bufferValues, string(k)) <==> (inKeys(keys, k) && gHas(b.buffer, k) && !(gVal(b.buffer, k) == "" && seen(string(k))))
+//@   loop 2 invariant vals: forall k []byte :: inDom(bufferValues, string(k)) ==> bufferValues[string(k)].Value == gVal(b.buffer, k)
+//@   loop 3 invariant merged: forall k []byte :: inDom(bufferValues, string(k)) <==> ((inKeys(keys, k) && gHas(b.buffer, k) && gVal(b.buffer, k) != "") || (seen(string(k)) && inDom(storageValues, string(k))))
+//@   loop 3 invariant vals: forall k []byte :: inDom(bufferValues, string(k)) ==> bufferValues[string(k)].Value == ite(gHas(b.buffer, k), gVal(b.buffer, k), gVal(b.snapshot, k))
